@@ -2,7 +2,7 @@
 ID = "C05"
 PROPS = "Props/C05.v"
 COQ_TIMEOUT = 5400   # Coq build of this property incl. rebuilt dependencies; generous: on a loaded machine a rebuild after an upstream edit took > 1500 s
-GEN = ["sm4tables", "sm4consts"]
+GEN = ["sm4tables", "sm4consts", "sm4code"]
 LEGS = [{"driver": "c05", "runner": ("sm4", "Extract/ExtractSM4.v", "Sm4_model")}]
 
 TECHNIQUE = ("Coq proof that a function-by-function model of sm4.go over the tables regenerated from the source equals a "
@@ -33,8 +33,8 @@ ASSUMPTIONS = [
     "sequential use of one object (concurrent use is C20)",
 ]
 RULE = ("seeded generator (VERIF_SEED): the standard's vector; all 128 single-bit keys and blocks; all-zero/all-one key x block; every byte value "
-        "through every S-box lane of the first round (256 x 4 x enc/dec) and a fifth of the values through each key-schedule lane; random and "
-        "special (single bit set/cleared, repeated byte) keys and blocks; histories of 1..12 (thorough 40) interleaved Encrypt/Decrypt calls on one "
+        "at every one of the 16 block positions (256 x 16 x enc/dec; positions 4..15 sweep every S-box lane of the first round) and a fifth of the values through each key-schedule lane; random and "
+        "special (single bit set/cleared, repeated byte) keys and blocks; histories of 1..24 (thorough 40) interleaved Encrypt/Decrypt calls on one "
         "object with repeated and fed-back blocks; the same with the caller's key buffer overwritten in place after NewCipher returned (zeroed, one bit "
         "flipped, replaced) and one src / one dst array reused for every call; dst==src, disjoint and partially overlapping windows of one backing array; key lengths 0..64; "
         "n-fold in-place encryption (quick 2000, thorough 1,000,000 = Annex A.2). A case is non-trivial unless it is a key-length case; "
